@@ -23,7 +23,7 @@ impl<A: Actor> WeakAddr<A> {
     }
 
     pub fn stopped(&self) -> bool {
-        self.running.peek().is_some()
+        crate::context::has_terminated(&self.running)
     }
 
     pub fn try_stop(&mut self) -> Result<()> {
